@@ -33,6 +33,17 @@ class Rule:
         self.analysed.add(fn)
 
 
+def only(rule_fn, pred, note):
+    """share a rule with another property, keeping only the obligations relevant to that property"""
+    def wrapped(ctx):
+        res = rule_fn(ctx)
+        res.obs = [o for o in res.obs if pred(o["key"])]
+        res.note("shared rule, restricted to: " + note)
+        return res
+    wrapped.__name__ = getattr(rule_fn, "__name__", "rule") + "_only"
+    return wrapped
+
+
 class Ctx:
     def __init__(self, facts, tier, controls=None):
         self.facts = facts
